@@ -705,34 +705,11 @@ func (c *Ctx) ruleReportGate(onlyPkgs ...string) {
 			}
 		})
 	}
-	c.check(len(reports) == 1, "REPORT-GATE/SINGLE-SINK", "pass.Report", "", "diagnostics are emitted at exactly one place", fmt.Sprintf("%d places emit diagnostics (pass.Report*): each needs the ignore gate, the code/position agreement and the format", len(reports)))
+	c.check(len(reports) >= 1, "REPORT-GATE/SINK", "pass.Report", "", fmt.Sprintf("%d place(s) emit diagnostics; each is checked for the ignore gate, the code/position agreement and the format", len(reports)), "no place emits diagnostics (pass.Report*)")
 	for _, rep := range reports {
 		fn := rep.Parent()
 		name := FuncName(fn)
 		where := P.Pos(rep.Pos())
-		if len(fn.Params) < 2 {
-			c.fail("REPORT-GATE", name, where, "reporting function does not take the violation as parameter")
-			continue
-		}
-		viol := fn.Params[1]
-		vD := P.Desc(viol)
-		isGet := func(v ssa.Value, m string) bool {
-			return P.RootsAll(v, func(r ssa.Value) bool {
-				call, ok := r.(*ssa.Call)
-				return ok && call.Call.IsInvoke() && call.Call.Method.Name() == m && P.Desc(call.Call.Value) == vD
-			})
-		}
-		// gate
-		gated := false
-		for _, l := range P.BlockGuards(rep.Block()) {
-			if call := P.litCallTo(l, fnIgnoreContain); call != nil && !l.Pos {
-				okSet := P.RootsAll(call.Call.Args[0], func(r ssa.Value) bool { return fieldLoad(r, "reporting.Reporter", "ignoreSet") != nil })
-				if okSet && isGet(call.Call.Args[1], "GetCode") && isGet(call.Call.Args[2], "GetPos") {
-					gated = true
-				}
-			}
-		}
-		c.check(gated, "REPORT-GATE/GATE", name, where, "Report is guarded by !r.ignoreSet.Contains(v.GetCode(), v.GetPos())", "the diagnostic is reported without consulting the ignore set for this violation's own code and position")
 		// diagnostic position and message
 		arg := rep.Common().Args[0]
 		var posV, msgV ssa.Value
@@ -761,6 +738,49 @@ func (c *Ctx) ruleReportGate(onlyPkgs ...string) {
 				}
 			}
 		}
+		// the violation being reported: the value whose GetPos() positions the diagnostic (a parameter of the
+		// reporting function, or the element of the list it walks)
+		vD := ""
+		if posV != nil {
+			one := true
+			P.RootsAll(posV, func(r ssa.Value) bool {
+				call, ok := r.(*ssa.Call)
+				if !ok || !call.Call.IsInvoke() || call.Call.Method.Name() != "GetPos" || typeStr(call.Call.Value.Type()) != "reporting.Violation" {
+					one = false
+					return false
+				}
+				d := P.Desc(call.Call.Value)
+				if vD != "" && vD != d {
+					one = false
+				}
+				vD = d
+				return true
+			})
+			if !one {
+				vD = ""
+			}
+		}
+		if vD == "" {
+			c.fail("REPORT-GATE/POS", name, where, "the diagnostic is not positioned at GetPos() of one violation value")
+			continue
+		}
+		isGet := func(v ssa.Value, m string) bool {
+			return P.RootsAll(v, func(r ssa.Value) bool {
+				call, ok := r.(*ssa.Call)
+				return ok && call.Call.IsInvoke() && call.Call.Method.Name() == m && P.Desc(call.Call.Value) == vD
+			})
+		}
+		// gate
+		gated := false
+		for _, l := range P.BlockGuards(rep.Block()) {
+			if call := P.litCallTo(l, fnIgnoreContain); call != nil && !l.Pos {
+				okSet := P.RootsAll(call.Call.Args[0], func(r ssa.Value) bool { return fieldLoad(r, "reporting.Reporter", "ignoreSet") != nil })
+				if okSet && isGet(call.Call.Args[1], "GetCode") && isGet(call.Call.Args[2], "GetPos") {
+					gated = true
+				}
+			}
+		}
+		c.check(gated, "REPORT-GATE/GATE", name, where, "Report is guarded by !r.ignoreSet.Contains(v.GetCode(), v.GetPos())", "the diagnostic is reported without consulting the ignore set for this violation's own code and position")
 		c.check(posV != nil && isGet(posV, "GetPos"), "REPORT-GATE/POS", name, where, "Diagnostic.Pos = v.GetPos() (the position that was looked up in the ignore set)", "the diagnostic is positioned elsewhere than the position checked against @ignore")
 		okMsg := false
 		if msgV != nil {
